@@ -3,12 +3,15 @@ package e2e
 // C14: WebSocket callbacks ordered and exactly-once; concurrent writes stay whole.
 // All upgrade paths of the nbhttp engine: poller-driven (IOModNonBlocking), blocking with
 // parser (IOModBlocking, ParserCloser hand-over, asynchronous send queue) and transferred
-// to the poller (UpgradeAndTransferConnToPoller).
+// to the poller (UpgradeAndTransferConnToPoller), and "std": a connection hijacked from a
+// net/http-style server, read by the connection's own HandleRead loop.
 
 import (
+	"bufio"
 	"bytes"
 	"encoding/binary"
 	"fmt"
+	"net"
 	"net/http"
 	"strings"
 	"testing"
@@ -21,6 +24,7 @@ import (
 	"verif/harness/stream"
 	"verif/sim/kernel"
 	simrt "verif/sim/rt"
+	snet "verif/sim/shim/net"
 	ssync "verif/sim/shim/sync"
 )
 
@@ -44,6 +48,8 @@ type WSCase struct {
 	NPoller int           `json:"npoller"`
 	Pool    int           `json:"pool"`
 	FrameMax int          `json:"frame_max"` // server side MaxWebsocketFramePayloadSize
+	Compress bool         `json:"compress,omitempty"` // permessage-deflate negotiated, both directions compressed
+	Track    bool         `json:"track,omitempty"`    // C11: ownership-tracking allocators instead of the real pools
 	Conns   []WSConnPlan  `json:"conns"`
 }
 
@@ -56,11 +62,12 @@ func genWSCase(r *simrt.Rand, tier string) *WSCase {
 	c.K.ShortWrite = r.PickF(0, 0.05, 0.2)
 	c.K.ShortRead = r.PickF(0, 0.05, 0.2)
 	c.K.WaitSubset = r.PickF(0, 0.3)
-	c.IOMod = r.PickS("nonblocking", "nonblocking", "blocking", "transfer")
+	c.IOMod = r.PickS("nonblocking", "nonblocking", "blocking", "transfer", "std")
 	c.Mode = r.PickS("LT", "ET", "ONESHOT")
 	c.NPoller = r.Pick(1, 2)
 	c.Pool = r.Pick(2, 4)
 	c.FrameMax = r.Pick(0, 16, 100, 1000)
+	c.Compress = r.Bool(0.3)
 	nc := r.Range(1, 3)
 	for i := 0; i < nc; i++ {
 		p := WSConnPlan{Frag: r.Pick(0, 0, 1, 10), Eager: r.Bool(0.6), HandlerYields: r.Pick(0, 1, 3), Piece: r.Pick(1, 7, 100000, 100000)}
@@ -149,12 +156,33 @@ func shrinkWS(ci interface{}) []interface{} {
 		x.FrameMax = 0
 		out = append(out, x)
 	}
+	if c.Compress {
+		x := cp()
+		x.Compress = false
+		out = append(out, x)
+	}
 	for _, s := range common.ShrinkScheds(c.Sched) {
 		x := cp()
 		x.Sched = s
 		out = append(out, x)
 	}
 	return out
+}
+
+// hijackWriter is the ResponseWriter of a std-style server for a handler that hijacks.
+type hijackWriter struct {
+	conn net.Conn
+	br   *bufio.Reader
+	h    http.Header
+}
+
+func (w *hijackWriter) Header() http.Header         { return w.h }
+func (w *hijackWriter) Write(b []byte) (int, error) { return w.conn.Write(b) }
+func (w *hijackWriter) WriteHeader(code int) {
+	fmt.Fprintf(w.conn, "HTTP/1.1 %d %s\r\nContent-Length: 0\r\n\r\n", code, http.StatusText(code))
+}
+func (w *hijackWriter) Hijack() (net.Conn, *bufio.ReadWriter, error) {
+	return w.conn, bufio.NewReadWriter(w.br, bufio.NewWriter(w.conn)), nil
 }
 
 type wsConnState struct {
@@ -184,8 +212,17 @@ func wsPayload(id string, n int) []byte {
 	return b
 }
 
-func runWS(t *testing.T, ci interface{}, trace bool) *common.Outcome {
+func runWS(t *testing.T, ci interface{}, trace bool) *common.Outcome { return runWSAs(t, ci, trace, "C14") }
+
+func runWSAs(t *testing.T, ci interface{}, trace bool, prop string) *common.Outcome {
 	c := ci.(*WSCase)
+	untrack := tracking(c.Track)
+	o := runWSCase(t, c, trace)
+	untrack(o, prop)
+	return o
+}
+
+func runWSCase(t *testing.T, c *WSCase, trace bool) *common.Outcome {
 	o := &common.Outcome{}
 	var logs []string
 	var k *kernel.Kernel
@@ -208,6 +245,7 @@ func runWS(t *testing.T, ci interface{}, trace bool) *common.Outcome {
 		u := websocket.NewUpgrader()
 		u.KeepaliveTime = time.Hour
 		u.BlockingModSendQueueMaxSize = 0
+		u.EnableCompression(c.Compress)
 		byAddr := map[string]*wsConnState{}
 		u.OnOpen(func(x *websocket.Conn) {
 			// runs inside Upgrade; the connection is identified by the peer's address
@@ -297,6 +335,7 @@ func runWS(t *testing.T, ci interface{}, trace bool) *common.Outcome {
 				fail("upgrade-failed", class, "Upgrade returned %v", err)
 				return
 			}
+			wc.EnableWriteCompression(c.Compress)
 			// concurrent application writers
 			for wi, lens := range cs.plan.Writers {
 				wi, lens := wi, lens
@@ -325,7 +364,7 @@ func runWS(t *testing.T, ci interface{}, trace bool) *common.Outcome {
 				})
 			}
 		})
-		eng := newEngine(map[string]string{"nonblocking": "nonblocking", "blocking": "blocking", "transfer": "blocking"}[c.IOMod], c.Mode, c.NPoller, c.Pool, 4, handler)
+		eng := newEngine(map[string]string{"nonblocking": "nonblocking", "blocking": "blocking", "transfer": "blocking", "std": "std"}[c.IOMod], c.Mode, c.NPoller, c.Pool, 4, handler)
 		eng.MaxWebsocketFramePayloadSize = c.FrameMax
 		if c.FrameMax == 0 {
 			eng.MaxWebsocketFramePayloadSize = 1 << 20
@@ -334,6 +373,35 @@ func runWS(t *testing.T, ci interface{}, trace bool) *common.Outcome {
 		if err := eng.Start(); err != nil {
 			o.Infra = "engine start: " + err.Error()
 			return
+		}
+		if c.IOMod == "std" {
+			// what net/http.Server does for a handler that hijacks: accept, read the request,
+			// hand the raw connection over through http.Hijacker
+			ln, err := snet.Listen("tcp", "127.0.0.1:8080")
+			if err != nil {
+				o.Infra = "std listen: " + err.Error()
+				return
+			}
+			defer ln.Close()
+			simrt.GoNamed("std-accept", func() {
+				simrt.MarkDaemon()
+				for {
+					conn, err := ln.Accept()
+					if err != nil {
+						return
+					}
+					simrt.GoNamed("std-serve", func() {
+						br := bufio.NewReader(conn)
+						rq, err := http.ReadRequest(br)
+						if err != nil {
+							conn.Close()
+							return
+						}
+						rq.RemoteAddr = conn.RemoteAddr().String()
+						handler.ServeHTTP(&hijackWriter{conn: conn, br: br, h: http.Header{}}, rq)
+					})
+				}
+			})
 		}
 		addr := &kernel.Addr{Net: "tcp", IP: [4]byte{127, 0, 0, 1}, Port: 8080}
 		done := 0
@@ -399,7 +467,11 @@ func runWS(t *testing.T, ci interface{}, trace bool) *common.Outcome {
 			}
 			simrt.GoNamed(fmt.Sprintf("wsclient%d", i), func() {
 				defer func() { done++ }()
-				req := fmt.Sprintf("GET /ws HTTP/1.1\r\nHost: sim\r\nX-Conn: %d\r\nConnection: Upgrade\r\nUpgrade: websocket\r\nSec-WebSocket-Version: 13\r\nSec-WebSocket-Key: dGhlIHNhbXBsZSBub25jZQ==\r\n\r\n", i)
+				ext := ""
+				if c.Compress {
+					ext = "Sec-WebSocket-Extensions: permessage-deflate; server_no_context_takeover; client_no_context_takeover\r\n"
+				}
+				req := fmt.Sprintf("GET /ws HTTP/1.1\r\nHost: sim\r\nX-Conn: %d\r\nConnection: Upgrade\r\nUpgrade: websocket\r\nSec-WebSocket-Version: 13\r\n%sSec-WebSocket-Key: dGhlIHNhbXBsZSBub25jZQ==\r\n\r\n", i, ext)
 				if !send([]byte(req)) {
 					return
 				}
@@ -410,6 +482,10 @@ func runWS(t *testing.T, ci interface{}, trace bool) *common.Outcome {
 				var burst []byte
 				for j, n := range plan.Msgs {
 					payload := wsPayload(fmt.Sprintf("c%dm%d", i, j), n)
+					rsv := 0
+					if c.Compress {
+						payload, rsv = stream.Deflate(payload), 4
+					}
 					var frames []stream.Frame
 					if plan.Frag > 0 && len(payload) > plan.Frag {
 						for off := 0; off < len(payload); off += plan.Frag {
@@ -426,6 +502,7 @@ func runWS(t *testing.T, ci interface{}, trace bool) *common.Outcome {
 					} else {
 						frames = []stream.Frame{{Fin: true, Op: 2, Masked: true, Payload: payload}}
 					}
+					frames[0].Rsv = rsv
 					for _, f := range frames {
 						burst = append(burst, stream.EncodeFrame(f, [4]byte{byte(j), 7, 9, byte(i)})...)
 					}
@@ -514,7 +591,7 @@ func runWS(t *testing.T, ci interface{}, trace bool) *common.Outcome {
 			// ---- what the peer saw: whole, non-interleaved messages ---------------------------
 			frames, _ := stream.DecodeFrames(cs.recvd)
 			var cur []byte
-			inMsg := false
+			inMsg, curCompressed := false, false
 			seen := map[string]int{}
 			for fi, f := range frames {
 				if f.Op >= 8 {
@@ -528,9 +605,20 @@ func runWS(t *testing.T, ci interface{}, trace bool) *common.Outcome {
 					fail("frames-interleaved", class, "connection %d: frame %d has opcode %d while a fragmented message is %v: the frames of concurrently written messages are interleaved", i, fi, f.Op, inMsg)
 					return
 				}
+				if f.Op != 0 {
+					curCompressed = f.Rsv&4 != 0
+				}
 				cur = append(cur, f.Payload...)
 				inMsg = !f.Fin
 				if f.Fin {
+					if curCompressed {
+						plain, err := stream.Inflate(cur)
+						if err != nil {
+							fail("frames-interleaved", class+"/inflate", "connection %d: a reassembled compressed message (%d bytes) does not inflate: %v", i, len(cur), err)
+							return
+						}
+						cur = plain
+					}
 					id := string(cur)
 					if p := strings.IndexByte(id, '|'); p > 0 {
 						id = id[:p]
